@@ -550,6 +550,10 @@ def reshape(self, *newdims, **kwargs):
 
     assert len(newdims_unflattened) == len(set(newdims_unflattened)), "must not contain duplicate axes !"
 
+    # (work on copies of such axes: `o` is `self`, or shares its Axis objects, when there was nothing to unflatten)
+    if any(',' in ax.name or ';' in ax.name for ax in o.axes):
+        o = o._constructor(o.values, [ax.copy() for ax in o.axes], **o.attrs)
+
     for ax in o.axes:
         ax.name = ax.name.replace(',',';')
 
